@@ -234,9 +234,14 @@ def run(ctx):
     from ..dtable import Interp
     it = Interp(repo, fld)
     # restrict to the leading guard: interpret only up to the first return; use leaves and look at early returns
-    first = fld.node.body[0]
-    if isinstance(first, ast.Expr) and isinstance(first.value, ast.Constant):
-        first = fld.node.body[1]
+    def _skippable(st):
+        if isinstance(st, ast.Expr) and isinstance(st.value, ast.Constant):
+            return True
+        if isinstance(st, ast.Expr) and isinstance(st.value, ast.Call):
+            d = dotted(st.value.func) or ''
+            return d.startswith(('_logger.', 'logger.', 'logging.'))
+        return False
+    first = next((st for st in fld.node.body if not _skippable(st)), fld.node.body[0])
     ok = isinstance(first, ast.If) and len(first.body) == 1 and isinstance(first.body[0], ast.Return) and not first.orelse
     if ok:
         t = first.test
